@@ -113,6 +113,31 @@ c.setup(_setup)
 c.loop(0, ["ghost('fired') == ghost('passes')"], modifies=['ghost:fired', 'ghost:passes'])
 c.ensures('each-pass-that-saw-the-flag-set-fires-once', "ghost('fired') == ghost('passes')")
 
+# ---- the ticking thread of a clock that was stopped before (the same job runs a second time) ticks again: its first look at
+#      the flag sees what the thread itself made of it, not the False the earlier stop left behind (the stop was aimed at
+#      the earlier run).  Later reads: stopped, so that the loop ends after the first pass.
+c = contract(CK, 'Clock.run', serves=['C09', 'C10', 'C17'], unwrap=1, name='Clock.run[started again after a stop]')
+def _setup(b, case):
+    clk, start, cue, now0 = clock_obj(b)
+    clk.attrs['_keep_going'] = False              # state left by the stop of the previous run
+    ev = clk.attrs['_event']
+    b.ghost('fired', 0)
+    b.ghost('flag_reads', 0)
+    def fire(I_, o, a, k):
+        I_.ghost['fired'] = I_.ghost['fired'] + 1
+    ev.methods['set'] = fire
+    ev.methods['clear'] = lambda I_, o, a, k: None
+    def read(I_, o, f):
+        I_.ghost['flag_reads'] = I_.ghost['flag_reads'] + 1
+        return o.attrs[f] if I_.ghost['flag_reads'] == 1 else False
+    b.volatile(clk, '_keep_going', read)
+    st = b.sym('real', 'sleep_time')
+    settings = Opaque('settings', {'get_value': lambda I_, o, a, k: st})
+    return {'self': clk, 'settings': settings}
+c.setup(_setup)
+c.unroll_own_loops = True
+c.ensures('ticks-at-least-once', "ghost('fired') == 1")
+
 # ---- ScriptJob
 SJ = 'bardolph/controller/script_job.py'
 c = contract(SJ, 'ScriptJob.request_stop', serves=['C09'])
@@ -195,6 +220,7 @@ def _setup(b, case):
     lib.provide(b, il.ns['Output'], Opaque('output', {'out': lambda I_, o, a, k: None, 'newline': lambda I_, o, a, k: None, 'flush': lambda I_, o, a, k: None}))
     sj = PyObj(b.cls('bardolph.controller.script_job', 'ScriptJob'), {'_program': None, '_parser': None, '_machine': m})
     return {'self': sj}
+_setup_job = _setup
 c.setup(_setup)
 c.ensures('the-stopped-run-executes-nothing', "no_clock_request(ghost('Clk'), 'pause_for')")
 
@@ -222,6 +248,24 @@ import json; print(json.dumps({'commands_sent_after_the_stop': len(calls)}))
     return {'reproduced': res['commands_sent_after_the_stop'] > 0, 'call': "ScriptJob.from_string('on \"Top\" off \"Top\"'); request_stop(); execute()",
             'observed': res, 'required': 'no device command after the stop request'}
 c.replay_hook = _replay_stop_lost
+
+
+# ---- "a stop affects only the run it was aimed at: the same or another script started afterwards runs to completion":
+#      a stop that reaches the job after its run has ended must not be remembered by the next run of the same job
+c = contract(SJ, 'stop_then_run_again', serves=['C09', 'C17'], name='lemma:ScriptJob.execute; request_stop; execute (the same job started again)', src='''
+def stop_then_run_again(self):
+    from bardolph.vm.instruction import Instruction
+    from bardolph.vm.vm_codes import OpCode, Register
+    self._program = [Instruction(OpCode.MOVEQ, 1, Register.TIME), Instruction(OpCode.WAIT), Instruction(OpCode.WAIT)]
+    self.execute()
+    self.request_stop()
+    self.execute()
+''')
+c.setup(_setup_job)
+c.ensures('the-first-run-is-complete', "ghost('Clk')[0][0] == 'start' and ghost('Clk')[3][0] == 'stop' and ghost('Clk')[4][0] == 'stop'")
+c.ensures('the-run-started-after-the-stop-is-complete-too',
+          "len(ghost('Clk')) == 9 and ghost('Clk')[5][0] == 'start' and ghost('Clk')[6][0] == ghost('Clk')[1][0] and ghost('Clk')[7][0] == ghost('Clk')[2][0] and ghost('Clk')[8][0] == 'stop'")
+
 
 
 def _install(I):
